@@ -60,6 +60,7 @@ FieldPool ==
       f_subs  |-> F("Subs", "subs", <<>>, "plain", "slice_struct:sub"),
       f_hid   |-> F("Hidden", "hidden", <<>>, "skip", "string"),
       f_ratio |-> F("Ratio", "ratio", <<>>, "plain", "float"),
+      f_nenv  |-> F("NEnv", "nenv", <<>>, "plain", "map_nss"),                   \* a map whose key type is a NAMED string type
       f_camel |-> F("Retries", "maxRetries", <<"MaxRetries">>, "plain", "int"),   \* a TAG key is taken as written: no case folding, unlike the default (field-name) key
       i_map   |-> F("Rest", "", <<>>, "inline", "inline_map"),
       i_str   |-> F("RestS", "", <<>>, "inline", "struct:inl"),
@@ -97,7 +98,7 @@ ExpectValue(type, v, cur) ==
     CASE type \in StructTypes -> Expect(StructOf(type), AsDoc(v), cur)
       [] type = "ptr:sub" -> Expect(Structs.sub, AsDoc(v), IF cur = Null THEN ZeroStruct(Structs.sub) ELSE cur)
       [] type = "slice_struct:sub" -> [t |-> "q", e |-> [i \in 1..Len(v.e) |-> Expect(Structs.sub, AsDoc(v.e[i]), ZeroStruct(Structs.sub))]]   \* every element starts from zero
-      [] type = "map_ss" -> [t |-> "m", kv |-> [i \in 1..Len(v.kv) |-> <<v.kv[i][1], IF v.kv[i][2] = Null THEN Str("") ELSE v.kv[i][2]>>]]   \* a null entry is the zero string
+      [] type \in {"map_ss", "map_nss"} -> [t |-> "m", kv |-> [i \in 1..Len(v.kv) |-> <<v.kv[i][1], IF v.kv[i][2] = Null THEN Str("") ELSE v.kv[i][2]>>]]   \* a null entry is the zero string
       [] OTHER -> v
 \* desc: descriptor, doc: document, dst: the destination struct's current value
 Expect(desc, doc, dst) ==
@@ -126,7 +127,7 @@ ImplValue(type, v, cur) ==
       [] type = "ptr:sub" -> DecodeImpl(Structs.sub, AsDoc(v), IF cur = Null THEN ZeroStruct(Structs.sub) ELSE cur)
       [] type = "slice_struct:sub" -> [t |-> "q", e |-> [i \in 1..Len(v.e) |-> DecodeImpl(Structs.sub, AsDoc(v.e[i]), ZeroStruct(Structs.sub))]]   \* x := reflect.New(etype) per element
       [] type = "slice_any" -> (IF v = EmptySeq /\ cur = Null /\ ~FixEmptySliceAny THEN Null ELSE v)    \* append(nil, empty...) is nil
-      [] type = "map_ss" -> [t |-> "m", kv |-> [i \in 1..Len(v.kv) |-> <<v.kv[i][1], IF v.kv[i][2] = Null THEN ZeroOf("string") ELSE v.kv[i][2]>>]]   \* Unmarshal(nil, *string) zeroes
+      [] type \in {"map_ss", "map_nss"} -> [t |-> "m", kv |-> [i \in 1..Len(v.kv) |-> <<v.kv[i][1], IF v.kv[i][2] = Null THEN ZeroOf("string") ELSE v.kv[i][2]>>]]   \* Unmarshal(nil, *string) zeroes
       [] OTHER -> v
 \* loop over the fields: acc = pairs decided so far, outline = keys matched to fields
 FieldLoop(desc, doc, dst, i, acc, outline) ==
